@@ -257,6 +257,16 @@ FixPsk ==
        /\ SetPsk(id, prm.late[2], PskAtom(prm.late[2]))
   /\ UNCHANGED <<pc, prm, wire, sent, budget, status>>
 
+(* a set_psk call refused for the length of its key (Input) leaves the slot as it was: still empty (once per behaviour) *)
+BadSetDone == \E i \in 1..Len(hist) : hist[i].op = "set_psk" /\ hist[i].exp.res = "err"
+BadFixPsk ==
+  /\ ~Done /\ ~BadSetDone
+  /\ \E id \in {"I", "R"} :
+       /\ MissingPskNow(id)
+       /\ Log(Step("set_psk", id, [loc |-> prm.late[2], key |-> <<"lit", "shortkey", 31>>],
+                   [res |-> "err", causes |-> {"P_LEN"}, kinds |-> {"Input"}, obs |-> HsObs(St(id))]))
+  /\ UNCHANGED <<ep, aeadLog, pc, prm, wire, sent, budget, status>>
+
 (* set_psk on a filled slot, at any time (once) *)
 OwTarget == IF prm.ow[3] = "fix" THEN PskAtom(prm.ow[2]) ELSE Atom("pskX", 32)
 OwDone == \E i \in 1..Len(hist) : hist[i].op = "set_psk"
@@ -346,7 +356,7 @@ Tamper ==
   /\ Log(Step("adv", "-", [msg |-> wire'], [res |-> "ok"]))
   /\ UNCHANGED <<ep, aeadLog, pc, prm, sent>>
 
-Next == (status = "run" /\ Genuine) \/ FixPsk \/ Overwrite \/ Fault \/ Tamper
+Next == (status = "run" /\ Genuine) \/ FixPsk \/ BadFixPsk \/ Overwrite \/ Fault \/ Tamper
         \/ (status = "tampered" /\ ~Done /\ Genuine)
 
 Spec == Init /\ [][Next]_mcvars
